@@ -257,12 +257,18 @@ func (h *history) violation(key, what string) {
 // missClass qualifies a read miss: an epoch whose persister was pre-created by a full-history read miss
 // in the then-newest epoch takes another path at its epoch change (witness class of its own)
 func (h *history) missClass(e uint32, dflt string) string {
-	for x := range h.m.preCreated {
-		if x <= h.m.cur && x+h.m.numActive > e && x <= e+h.m.numActive {
-			return "epoch-precreated-by-read"
-		}
+	if h.m.preCreated[e] {
+		return "epoch-precreated-by-read"
 	}
 	return dflt
+}
+
+// missKey builds the violation key of a read miss; the pre-created-epoch class has one key for all read kinds
+func (h *history) missKey(op string, e uint32, dflt string) string {
+	if c := h.missClass(e, dflt); c == "epoch-precreated-by-read" {
+		return "read-miss class=" + c
+	}
+	return "read-miss op=" + op + " class=" + dflt
 }
 
 func cfgLine(cfg map[string]interface{}) string {
@@ -365,7 +371,7 @@ func (h *history) checkKey(k string, deep bool) {
 			r.Eval(1)
 			h.kinds["check_owed_"+op]++
 			if err != nil {
-				h.violation("read-miss op="+op+" class="+h.missClass(e, "active"), fmt.Sprintf("%s(%s) fails (%v) although the key was put in epoch %d while it was open, was not removed since, and epoch %d is one of the last %d epochs (current %d)", op, k, err, e, e, m.numActive, m.cur))
+				h.violation(h.missKey(op, e, "active"), fmt.Sprintf("%s(%s) fails (%v) although the key was put in epoch %d while it was open, was not removed since, and epoch %d is one of the last %d epochs (current %d)", op, k, err, e, e, m.numActive, m.cur))
 				return
 			}
 			if op != "Has" && !h.checkValue(op, k, v) {
@@ -407,7 +413,7 @@ func (h *history) checkKey(k string, deep bool) {
 			if m.inL(e) {
 				class = "active"
 			}
-			h.violation("read-miss op=GetFromEpoch class="+h.missClass(e, class), fmt.Sprintf("GetFromEpoch(%s, %d) fails (%v) although the key was put in that epoch while it was open, was not removed since, and the epoch is one of the last %d (current %d)", k, e, err, m.numKeep, m.cur))
+			h.violation(h.missKey("GetFromEpoch", e, class), fmt.Sprintf("GetFromEpoch(%s, %d) fails (%v) although the key was put in that epoch while it was open, was not removed since, and the epoch is one of the last %d (current %d)", k, e, err, m.numKeep, m.cur))
 			return
 		}
 		if !h.checkValue("GetFromEpoch", k, v) {
@@ -754,7 +760,7 @@ func main() {
 			scratch, ownScratch = d, d
 		}
 	}
-	nMem := r.N(1600, 24000)
+	nMem := r.N(4000, 24000)
 	nLevel := r.N(0, 1600)
 	r.Parallel(nMem+nLevel, func(c *vk.Case) {
 		runHistory(r, c, c.Idx >= nMem, scratch)
